@@ -213,3 +213,152 @@ def _(ctx):
                 if not d.type.const and not rel.endswith('.hpp'):
                     bad.append('%s: non-const namespace-scope variable %s' % (rel, d.name))
     ctx.record('', PROVED if not bad else FAILED, 'B', 0, '; '.join(bad) if bad else 'none found', solver='syntactic scan', kind='supporting')
+
+# ---------------------------------------------------------------------------------------------------
+# function-local statics anywhere in the library (the extractor treats them as globals: a static that is written, or
+# initialised from run-time data, is shared mutable state = a frame violation of the enclosing function)
+# ---------------------------------------------------------------------------------------------------
+from gm2v import cxx as _cxx
+
+def _walk(n, f):
+    if isinstance(n, _cxx.Node):
+        f(n)
+        for fld in n._fields:
+            _walk(getattr(n, fld), f)
+    elif isinstance(n, (list, tuple)):
+        for x in n:
+            _walk(x, f)
+
+def _ids(e):
+    out = set()
+    _walk(e, lambda n: out.add(n.name) if isinstance(n, _cxx.Id) else None)
+    return out
+
+@obligation('C19.no_stateful_local_statics', fns=[])
+def _(ctx):
+    """frame inference over EVERY function body of the library sources (src/**, include/**): a function-local `static` must be const AND
+    initialised from compile-time constants only (no parameter, no local, no call on run-time data); anything else is state shared
+    between calls and threads (history dependence / data race)"""
+    bad = []
+    n_fn = n_static = 0
+    for p, u in ctx.w.units.items():
+        rel = ctx.w.rel(p)
+        if rel.endswith('gm2calc.cpp'):
+            continue
+        for fd in u.funcs:
+            try:
+                body = ctx.w.body(fd)
+            except _cxx.ParseError:
+                continue
+            n_fn += 1
+            runtime = {q.name for q in fd.params if q.name}
+            decls = []
+            _walk(body, lambda n: decls.append(n) if isinstance(n, _cxx.Decl) else None)
+            for d in decls:
+                if not (d.is_static or getattr(d.type, 'is_static', False)):
+                    runtime.add(d.name)
+            for d in decls:
+                if d.is_static or getattr(d.type, 'is_static', False):
+                    n_static += 1
+                    init_ids = _ids(d.init) | _ids(d.ctor_args)
+                    dep = sorted(init_ids & runtime)
+                    if not d.type.const:
+                        bad.append('%s: %s declares the non-const local static `%s`' % (rel, fd.qname, d.name))
+                    elif dep:
+                        bad.append('%s: %s initialises the local static `%s` from run-time data %s' % (rel, fd.qname, d.name, dep))
+    ctx.record('', PROVED if not bad else FAILED, 'B', 0, ('; '.join(bad))[:1500] if bad else '%d function bodies scanned, %d local statics, all const with constant initialisers' % (n_fn, n_static),
+               solver='frame inference (AST)', model={'offenders': bad[:10]} if bad else None)
+
+KERNELS = [('src/THDM/gm2_1loop_H.cpp', 'amu1L', 'THDM_1L_parameters'), ('src/THDM/gm2_1loop_H.cpp', 'amu1L_approx', 'THDM_1L_parameters'),
+           ('src/THDM/gm2_2loop_F.cpp', 'amu2L_F_neutral', 'THDM_F_parameters'), ('src/THDM/gm2_2loop_F.cpp', 'amu2L_F_charged', 'THDM_F_parameters'),
+           ('src/THDM/gm2_2loop_B.cpp', 'amu2L_B_EWadd', 'THDM_B_parameters'), ('src/THDM/gm2_2loop_B.cpp', 'amu2L_B_nonYuk', 'THDM_B_parameters'),
+           ('src/THDM/gm2_2loop_B.cpp', 'amu2L_B_Yuk', 'THDM_B_parameters')]
+
+def make_kernel_frame(file, fn, cls):
+    @obligation('C19.frame.kernel.%s' % fn, fns=[(file, fn)])
+    def ob(ctx):
+        """B: the THDM kernel leaves its parameter struct unchanged, writes no file-scope variable and executes no static declaration, on every
+        path (its own helper functions T0..T10, YF1..3, fb, Fm0, ... are executed, the loop functions of gm2_ffunctions by contract)"""
+        stubs = {n: (lambda n: (lambda it, a, t: it.uf('fn_' + n, *a)))(n) for n in LOOP}
+        it = Interp(ctx.w, mode='sym', stubs=stubs, feasibility=False, div_sides=False)
+        if fn in ('amu2L_B_Yuk', 'amu2L_B_nonYuk'):
+            # the helper functions are explored on their own (C19.frame.kernel.helper.*): here by their frame contract
+            for h in B_HELPERS:
+                it.stubs[h] = (lambda h: (lambda it_, a, t: it_.uf('fn_' + h, *a)))(h)
+        p = it.new_object(cls, symbolic_fields(None, prefix='p.'))
+        before = snapshot(p)
+        try:
+            ps = it.run_paths(lambda: it.call(fn, [p], file=file), max_paths=6000)
+        except Exception as e:
+            ctx.record('', ERROR, 'B', 0, 'extraction: %s' % e)
+            return
+        ctx.merge_rules(it)
+        after = snapshot(p)
+        bad = []
+        if before != after:
+            bad.append('parameter struct changed')
+        gw = sorted({e[1] for s_, r, x in ps for e in s_.effects if e[0] == 'global-write'})
+        if gw:
+            bad.append('file-scope writes: %s' % gw)
+        if ctx.rule_counts.get('local-static', 0):
+            bad.append('a function-local static declaration was executed %d times' % ctx.rule_counts['local-static'])
+        ctx.record('', PROVED if not bad else FAILED, 'B', 0, '; '.join(bad) if bad else '%d paths explored' % len(ps), solver='symbolic execution (frame comparison)')
+    return ob
+
+B_HELPERS = ['YF1', 'YFZ', 'YFW', 'YF2', 'YF3', 'T0', 'T1', 'dxlog', 'TX', 'T4', 'T5', 'T6', 'T7', 'T8', 'T9', 'T10', 'fb', 'Fm0', 'Fmp']
+
+def make_helper_frame(h):
+    @obligation('C19.frame.kernel.helper.%s' % h, fns=[('src/THDM/gm2_2loop_B.cpp', h)])
+    def ob(ctx):
+        """B: the scalar helper of the bosonic two-loop kernel writes no file-scope variable and executes no static declaration on any path"""
+        stubs = {n: (lambda n: (lambda it, a, t: it.uf('fn_' + n, *a)))(n) for n in LOOP}
+        it = Interp(ctx.w, mode='sym', stubs=stubs, feasibility=False, div_sides=False)
+        fds = ctx.w.find(h, 'src/THDM/gm2_2loop_B.cpp')
+        bad = []
+        npaths = 0
+        for fd in fds:
+            args = [z3.Real('a%d' % i) for i in range(len(fd.params))]
+            try:
+                ps = it.run_paths(lambda: it.invoke(fd, args, None), max_paths=3000)
+            except Exception as e:
+                ctx.record('', ERROR, 'B', 0, 'extraction: %s' % e)
+                return
+            npaths += len(ps)
+            gw = sorted({e[1] for s_, r, x in ps for e in s_.effects if e[0] == 'global-write'})
+            if gw:
+                bad.append('file-scope writes %s' % gw)
+        ctx.merge_rules(it)
+        if it.rule_counts.get('local-static', 0):
+            bad.append('static declaration executed')
+        ctx.record('', PROVED if not bad else FAILED, 'B', 0, '; '.join(bad) if bad else '%d paths' % npaths)
+    return ob
+
+for _h in B_HELPERS:
+    make_helper_frame(_h)
+
+for _k in KERNELS:
+    make_kernel_frame(*_k)
+
+@obligation('C19.frame.mf', fns=[('src/gm2_mf.cpp', 'calculate_lambda_qcd'), ('src/gm2_mf.cpp', 'calculate_mb_SM5_DRbar'), ('src/gm2_mf.cpp', 'calculate_mb_SM6_MSbar')])
+def _(ctx):
+    """B: the running bottom-mass routines and the Lambda_QCD determination (root finder by contract: returns a bracket or throws) write no
+    file-scope variable and execute no static declaration"""
+    a, b = z3.Real('ra'), z3.Real('rb')
+    bad = []
+    for fn, args in (('calculate_lambda_qcd', ['alpha', 'scale']), ('calculate_mb_SM5_DRbar', ['mb', 'alpha', 'scale']), ('calculate_mb_SM6_MSbar', ['mb', 'mt', 'as', 'mz', 'scale'])):
+        for mode in ('returns', 'throws'):
+            def toms(it_, ar, t, mode=mode):
+                if mode == 'throws':
+                    raise Thrown('std::domain_error', 'x')
+                return (a, b)
+            it = Interp(ctx.w, mode='sym', stubs={'toms748_solve': toms}, feasibility=False, div_sides=False)
+            try:
+                ps = it.run_paths(lambda: it.call(fn, [z3.Real(x) for x in args], file='src/gm2_mf.cpp'), max_paths=64)
+            except Exception as e:
+                ctx.record('%s.%s' % (fn, mode), ERROR, 'B', 0, 'extraction: %s' % e)
+                continue
+            ctx.merge_rules(it)
+            gw = sorted({e[1] for s_, r, x in ps for e in s_.effects if e[0] == 'global-write'})
+            st = it.rule_counts.get('local-static', 0)
+            ok = not gw and not st
+            ctx.record('%s.%s' % (fn, mode), PROVED if ok else FAILED, 'B', 0, 'paths=%d file-scope writes=%s static declarations executed=%d' % (len(ps), gw, st))
